@@ -37,7 +37,7 @@ ASSUMPTIONS = [
     "a nondeterminism that needs one specific address collision may be missed",
     "absolute interval addresses after the final re-layout are compared as a separate facet (they are assigned by gtirb_layout iterating sets)",
 ]
-BUDGET = {"quick": (48, 80), "thorough": (2000, 540)}
+BUDGET = {"quick": (64, 110), "thorough": (2000, 540)}
 # every batch runs 6 (thorough: 10) child interpreters at once
 WORKERS = 3
 REQUIRED_COUNTERS = ["scenarios_compared", "child_runs"]
@@ -64,7 +64,7 @@ def gen_case(rng, tier, index):
     for _ in range(BATCH[tier]):
         g = gen_rewrite.Gen(rng, tier, shared_blocks=True, fnscope_p=0.9,
                             anywhere_p=0.8, popular_callee_p=0.5,
-                            themed_p=0.5)
+                            themed_p=0.5, double_call_p=0.25)
         g.module()
         g.edits()
         regs = {"x64": ["rax", "rbx", "rcx", "rdx", "rsi", "r8", "r12"],
